@@ -10,7 +10,7 @@
 From Coq Require Import ZArith List Bool Lia Sorting.Permutation Sorting.Sorted.
 From RecordUpdate Require Import RecordUpdate.
 From SimVerif Require Import Model.Base Model.Env Model.FamEnv Model.RM Model.Maint Model.FloorTypes Model.Floor Model.FamFloor.
-From SimVerif Require Import Proofs.RMInv Proofs.EnvInv Proofs.EnvPause Proofs.FloorSteps Proofs.FloorInv Proofs.FloorSys Proofs.FloorProc Proofs.FloorFlow Proofs.FloorRes Proofs.FloorLink Proofs.FloorIdle Proofs.FloorLog Proofs.FloorLogInv.
+From SimVerif Require Import Proofs.RMInv Proofs.EnvInv Proofs.EnvPause Proofs.FloorSteps Proofs.FloorInv Proofs.FloorSys Proofs.FloorProc Proofs.FloorFlow Proofs.FloorRes Proofs.FloorLink Proofs.FloorIdle Proofs.FloorLog Proofs.FloorLogInv Proofs.EnvTrace.
 Import ListNotations.
 Open Scope Z_scope.
 
@@ -52,6 +52,21 @@ Print Assumptions C15_level_counts_parts.
 Example C15_nonvacuous :
   f_out (rec_part (mkFw [] [] init_rs [] 0 [] [] 0) L_RECEIVED 3 40 (ISingle (mkPart 9 16 8 [] []))) = [FData L_RECEIVED 3 [40; 9; 8; 16]].
 Proof. reflexivity. Qed.
+
+(** * the event trace of the model (the dispatch log): every step adds exactly the event it executes, at the front; no environment
+    call touches it; a run only ever extends it.  (The trace=True machinery of the implementation — _event_trace and the exported
+    file — is outside the model; the monitor compares it with the events taken off the queue.) *)
+Theorem C15_trace_step : forall (A W : Type) ws (exec : A -> W -> Z -> W * list (cmd A)) wfail w (en : env A) e q r,
+  queue en = e :: q -> step ws exec wfail (w, en) = Some r -> dispatched (snd (res_val r)) = e :: dispatched en.
+Proof. exact step_dispatch_log. Qed.
+Theorem C15_trace_calls : forall (A : Type) ws cs (en : env A), dispatched (res_val (apply_cmds ws en cs)) = dispatched en.
+Proof. intros A ws. exact (apply_cmds_dispatched A ws). Qed.
+Theorem C15_trace_run : forall (A W : Type) ws (exec : A -> W -> Z -> W * list (cmd A)) wfail fuel s r,
+  loop ws exec wfail fuel s = Some r -> exists l, dispatched (snd (res_val r)) = l ++ dispatched (snd s).
+Proof. exact loop_dispatch_log. Qed.
+Print Assumptions C15_trace_step.
+Print Assumptions C15_trace_calls.
+Print Assumptions C15_trace_run.
 
 (** * the devices and the data log agree, in every state reached without an exception (also inside a run) *)
 Theorem C15_supplied_counter_is_record_count : forall sc s d,
